@@ -195,8 +195,15 @@ impl<'a> SimdOp for SimdTopK<'a> {
         let mut kth_logit = topk.last().unwrap().1;
         let mut kth_logit_vec = ops.splat(kth_logit);
 
+        // Entries are ranked in the same order as the sort (`f32::total_cmp`)
+        // if either value is NaN. Otherwise `>` is used, which agrees with
+        // that order except that -0 and +0 are treated as equal.
         let mut update_topk = |kth_logit: &mut f32, index: u32, logit: f32| {
-            if logit > *kth_logit {
+            let exceeds_kth = match logit.partial_cmp(kth_logit) {
+                Some(ord) => ord.is_gt(),
+                None => logit.total_cmp(kth_logit).is_gt(),
+            };
+            if exceeds_kth {
                 *topk.last_mut().unwrap() = (index, logit);
                 topk.sort_by(|a, b| compare_gt(a.1, b.1));
                 *kth_logit = topk.last().unwrap().1;
@@ -211,7 +218,9 @@ impl<'a> SimdOp for SimdTopK<'a> {
         let mut indices_iter = indices.chunks_exact(ops.len());
         let mut logits_iter = logits.simd_iter(ops);
         for (index_chunk, logits_vec) in indices_iter.by_ref().zip(logits_iter.by_ref()) {
-            if mask_ops.any(ops.gt(logits_vec, kth_logit_vec)) {
+            // Comparisons with NaN are false, so this test is also true if
+            // any of the values is NaN, unlike `any(logits_vec > kth_logit_vec)`.
+            if !mask_ops.all(ops.le(logits_vec, kth_logit_vec)) {
                 for (&index, logit) in index_chunk.iter().zip(logits_vec.to_array()) {
                     update_topk(&mut kth_logit, index, logit);
                 }
@@ -411,6 +420,43 @@ mod tests {
         let filtered = chain.filter(logits, &[]);
         assert_eq!(filtered.logits(), &[0.5]);
         assert_eq!(filtered.indices(), &[0]);
+    }
+
+    #[test]
+    fn test_top_k_nan() {
+        let sort = |logits| Sort::new().filter(logits, &[]);
+        let bits =
+            |logits: &Logits| -> Vec<u32> { logits.logits().iter().map(|x| x.to_bits()).collect() };
+
+        let nan = f32::NAN;
+        let inf = f32::INFINITY;
+        let mut cases = vec![
+            vec![1.0, nan],
+            vec![nan, 1.0],
+            vec![-nan, -inf],
+            vec![-inf, -nan],
+            vec![nan, -nan, inf, -inf, 0.5],
+        ];
+
+        // Inputs longer than one SIMD vector, with NaNs in various positions.
+        for nan_pos in [0, 1, 5, 16, 20, 39] {
+            for neg_nan_pos in [0, 2, 17, 38] {
+                let mut logits: Vec<f32> = (0..40).map(|i| ((i * 7) % 13) as f32).collect();
+                logits[neg_nan_pos] = -nan;
+                logits[nan_pos] = nan;
+                cases.push(logits);
+            }
+        }
+
+        for case in cases {
+            let logits = Logits::dense(case);
+            for k in 0..=logits.len() {
+                let topk = TopK::new(k).filter(logits.clone(), &[]);
+                let sorted_topk = sort(topk);
+                let expected_topk = reference_topk(&logits, k);
+                assert_eq!(bits(&sorted_topk), bits(&expected_topk));
+            }
+        }
     }
 
     #[test]
